@@ -225,7 +225,7 @@ pub fn cases(tier: Tier) -> (Vec<Case>, Value) {
     let mut idx = 0usize;
     for p in &all {
         for s in sites(p) {
-            let nd = if matches!(s, Site::KStruct(_)) { 4 } else { 3 };
+            let nd = if matches!(s, Site::KStruct(_)) { 5 } else { 3 };
             for d in 0..nd {
                 if matches!(s, Site::KStruct(_)) {
                     match tier {
@@ -303,7 +303,7 @@ pub fn cases(tier: Tier) -> (Vec<Case>, Value) {
 }
 
 fn case_json(c: &Case) -> Value {
-    json!({"curve": c.curve, "program": c.prog.name(), "history": crate::history::hist_name(&c.hist), "site": c.site.json(), "delta": if matches!(c.site, Site::KStruct(_)) { ["-(sum of constants)", "+(sum of constants)", "-(first constant)", "+(last constant)"][c.delta] } else { DELTA_NAMES[c.delta] }})
+    json!({"curve": c.curve, "program": c.prog.name(), "history": crate::history::hist_name(&c.hist), "site": c.site.json(), "delta": if matches!(c.site, Site::KStruct(_)) { ["-(sum of constants)", "+(sum of constants)", "-(first constant)", "+(last constant)", "-(half of the value)"][c.delta] } else { DELTA_NAMES[c.delta] }})
 }
 
 pub fn main(o: &Opts) -> i32 {
@@ -388,7 +388,7 @@ pub fn replay(path: &str, o: &Opts) -> i32 {
         prog: Program::parse(case["program"].as_str().unwrap()).expect("program"),
         site: Site::from_json(&case["site"]),
         hist: crate::history::parse_hist(case["history"].as_str().unwrap_or("")).expect("history"),
-        delta: DELTA_NAMES.iter().position(|d| Some(*d) == case["delta"].as_str()).or_else(|| ["-(sum of constants)", "+(sum of constants)", "-(first constant)", "+(last constant)"].iter().position(|d| Some(*d) == case["delta"].as_str())).unwrap(),
+        delta: DELTA_NAMES.iter().position(|d| Some(*d) == case["delta"].as_str()).or_else(|| ["-(sum of constants)", "+(sum of constants)", "-(first constant)", "+(last constant)", "-(half of the value)"].iter().position(|d| Some(*d) == case["delta"].as_str())).unwrap(),
     };
     let seed = v["seed"].as_u64().unwrap_or(o.seed);
     let run = || with_curve!(curve, G => { let env = Env::<G>::new(64); format!("{:?}", run_case::<G>(&env, &c, seed)) });
